@@ -39,6 +39,10 @@ DIRECTED = [
     "lengte(\"héé\")", "lengte(\"hallo\")", "stel s = \"héé\"; [lengte(s), s[2], s[-1]]", "stel s = \"hallo\"; [lengte(s), s[4], s[-1]]", "stel s = \"語\"; [lengte(s), s[0]]", "stel s = \"abc\"; [lengte(s), s[2]]",
     "stel s = \"🇳🇱\"; [lengte(s), s[1]]", "stel s = \"abcdefgh\"; [lengte(s), s[7]]", "stel i = 0; stel t = 0; zolang i < 40 { i += 1; stel s = \"héé\"; t += lengte(s) } t", "stel i = 0; stel t = 0; zolang i < 40 { i += 1; stel s = \"hallo\"; t += lengte(s) } t",
     "stel a = [1, 2, 3]; lengte(a)", "stel a = [1.5, 2.5, 3.5]; lengte(a) + 1", "stel s = \"é\"; s[0] = \"ab\"; [s, lengte(s)]", "stel s = \"ab\"; s[0] = \"é\"; [s, lengte(s)]",
+    "stel a = 0.0 / 0.0; stel b = 0.0 / 0.0; [a < b, b < a, a <= b, a >= b, a > b]", "stel l = [0.0 / 0.0, 0.0 / 0.0, 0.0 / 0.0]; [l[0] < l[1], l[1] < l[2], l[2] < l[0], l[0] >= l[2]]",
+    "functie m(x, y) { als x < y { x } anders { y } } [m(0.0 / 0.0, 1.0), m(1.0, 0.0 / 0.0), m(0.0 / 0.0, 0.0 / 0.0)]",
+    "functie kwadraat(n) { n * n }; [kwadraat(2), 1.5, \"klaar\"]; stel laatste = kwadraat(4)", "1.5 + 0.0; functie f() { 2 } stel u = f(); stel v = f()", "\"de waarde\"; functie leeg() { } stel a = leeg(); stel b = leeg()",
+    "[0.5 + 0.25, [\"x\"]]; functie g(n) { [n] } stel p = g(1); stel q = g(2)",
     "functie f(a, b, c, d, e) { [a, b, c, d, e] } f()", "functie f(a, b, c) { stel x = x; stel y = y; [a, b, c, x, y] } f(1)",
     "functie g(n) { als n > 0 { antwoord g(n - 1) } stel diep = diep; [n, diep] } g(30)", "[11, 22, 33, 44, 55, 66, 77, 88, 99, 110, 121, 132]",
     "functie vul(a, b, c, d, e, f) { [a, b, c, d, e, f] } vul(\"a\", [1], 2.5, 4, ja, 6)", "functie h() { stel p = p; stel q = [q]; als ja { stel r = r; [p, q, r] } } h()",
